@@ -183,6 +183,33 @@ fn polynomials<E: FieldElement>(field: &str, rng: &mut Rng, cases: &mut u64) {
     }
 }
 
+/// long division with a prescribed quotient (zeros at chosen places) and remainder: div(q * b + r, b) == q
+fn constructed_divisions<E: FieldElement>(field: &str, rng: &mut Rng, cases: &mut u64) {
+    for lq in 1..8usize {
+        for lb in 1..6usize {
+            for zero_mask in 0..(1u32 << (lq - 1).min(5)) {
+                let mut q = poly::<E>(lq, rng);
+                q[lq - 1] = nonzero::<E>(rng);
+                for i in 0..(lq - 1).min(5) {
+                    if zero_mask & (1 << i) != 0 {
+                        q[i] = E::ZERO;
+                    }
+                }
+                let mut b = poly::<E>(lb, rng);
+                b[lb - 1] = nonzero::<E>(rng);
+                let mut r = poly::<E>(lb - 1, rng);
+                r.resize(lq + lb - 1, E::ZERO);
+                let a: Vec<E> = r_mul(&q, &b).iter().zip(r.iter()).map(|(&x, &y)| x + y).collect();
+                *cases += 1;
+                let got = guarded("polynom::div", field, || polynom::div(&a, &b));
+                if !same_poly(&got, &q) {
+                    fail(format!("div(q * b + r, b) != q for a quotient with zero coefficients: field={field} q={q:?} b={b:?} r={:?}", &r[..lb - 1]));
+                }
+            }
+        }
+    }
+}
+
 fn divisions<E: FieldElement>(field: &str, rng: &mut Rng, cases: &mut u64) {
     // synthetic division by x^a - b: p = q * (x^a - b) + r with deg r < a; q has p.len() coefficients
     for lp in 2..12usize {
@@ -375,6 +402,7 @@ fn batch_utilities<E: FieldElement>(field: &str, rng: &mut Rng, cases: &mut u64)
 fn field<E: FieldElement>(name: &str, rng: &mut Rng, cases: &mut u64) {
     polynomials::<E>(name, rng, cases);
     divisions::<E>(name, rng, cases);
+    constructed_divisions::<E>(name, rng, cases);
     interpolation::<E>(name, rng, cases);
     batch_utilities::<E>(name, rng, cases);
 }
